@@ -29,6 +29,7 @@ TARGETS = ['selfies/grammar_rules.py::next_atom_state',
            'selfies/grammar_rules.py::_process_atom_selfies_no_cache',
            'selfies/decoder.py::_tokenize_selfies',
            'selfies/utils/selfies_utils.py::split_selfies']
+ASSUMPTIONS = ["atom-symbol contracts (process_atom_symbol, _process_atom_selfies_no_cache, smiles_to_atom, tokenize_smiles) assume ASCII input of at most 4000 characters: Unicode digits matched by \\\\d and CPython's 4300-digit int() limit are recorded known findings", "regex match groups are modelled as SOME decomposition of the string into the pattern's top-level pieces (sound over-approximation of the greedy choice); functools.partial(Atom, **kw) is modelled as a heap object whose call constructs a fresh Atom", "graph-level contracts (mol_graph mutators, _form_rings_bilocally) cover integer bond orders and attribution off (the decoder side); the link between _bond_counts and the sum over incident bonds is carried by the mutators' whole-view postconditions, the finite-sum update law itself is a stated mathematical fact"]
 EXPLANATION = (
     "Mixed. PROVED: exception-freedom obligations (index in range, key present, None receivers, asserts, unpack "
     "arity, division by zero) generated at every raising operation of the functions under contract listed in "
